@@ -96,10 +96,13 @@ def corpus(tier):
         ('move', 'move "DST"'), ('flag', 'flag !new'), ('flags', 'flags "T"'), ('label', 'label "L"'),
         ('addheader', 'add-header "X-Added" "v"'), ('discard', 'discard'), ('label_move', 'label "L" move "DST"'),
         ('move_flag', 'move "DST" flag !new'), ('addheader_flag', 'add-header "X-A" "b" flag new'),
+        # two rewrites of the same message in one rule, and a rewrite after a move
+        ('label_addheader', 'label "L" add-header "X-Added" "v"'), ('addheader_twice_move', 'add-header "X-A" "1" add-header "X-B" "2" move "DST"'),
+        ('move_label', 'move "DST" label "L"'),
     ]
     for rid, rule in rules:
         for xdev in (False, True):
-            if xdev and rid in ('label', 'addheader', 'discard', 'flags'):
+            if xdev and rid in ('label', 'addheader', 'discard', 'flags', 'label_addheader'):
                 continue
             for nmsg, big in ((1, False), (2, False)) if tier == 'quick' else ((1, False), (2, False), (3, False), (1, True)):
                 k += 1
@@ -229,7 +232,10 @@ def segments(calls, stdin=False):
                 end_seg()
                 seg = {'kind': 'write', 'ops': [], 'created': None, 'role': 'N', 'pw': None, 'v': 1}
             a = args.split(' ')
-            seg['created'] = a[0] + '/' + ' '.join(a[1:-1])
+            if c['ok']:
+                # (a failed creation creates nothing: a later close of that NAME is the message's own descriptor,
+                # which can carry the same name when the counter is pinned and an earlier rewrite produced it)
+                seg['created'] = a[0] + '/' + ' '.join(a[1:-1])
             seg['ops'].append(('Creat.%s' % seg['role'], o))
         elif call == 'openat' and 'RDONLY' in args:
             if seg is not None and seg['kind'] == 'write':
